@@ -106,6 +106,8 @@ def d16_of(d):
     d = float(d)
     if math.isnan(d):
         return -1
+    if math.isinf(d) or d * d * 16 >= 2 ** 30:
+        return 2 ** 30   # projection is total: a non-finite / absurd distance is a value the spec will reject
     return int(round(d * d * 16))
 
 
@@ -184,6 +186,7 @@ def observe_eval(case, opts=None):
     n_nodes = case["N"]
     frames = case["frames"]
     case["raised"] = ""
+    case["reeval_same"] = True
     case["tiehi"] = tie_hi()
     case["skip"] = ""
     empty_obs = dict(empty=True, pairs=[], fn=[], prec=[], rec=[0] * 10, AP=[0] * 10, AR=[0] * 10, mAP=0, mAR=0,
@@ -198,7 +201,10 @@ def observe_eval(case, opts=None):
         try:
             lg, lp, index, keep = build_labels(frames, n_nodes)
             ev = E.Evaluator(lg, lp, oks_stddev=stddev, oks_scale=scale, match_threshold=thr)
-            m = ev.evaluate()
+            import copy
+            m1 = copy.deepcopy(ev.evaluate())
+            m = ev.evaluate()   # evaluate() must be a function of the labels: the SECOND call on the same Evaluator is the one judged
+            case["reeval_same"] = _same_metrics(m1, m)
         except Exception as e:  # noqa: BLE001  (totality is observed, not assumed)
             case["raised"] = "%s: %s" % (type(e).__name__, e)
             return case
@@ -265,3 +271,14 @@ def observe_eval(case, opts=None):
     del keep
     return case
 
+
+
+def _same_metrics(a, b):
+    """measurement: are two evaluate() results equal (NaN == NaN, inf == inf, 1e-12 tolerance)?"""
+    if isinstance(a, dict) and isinstance(b, dict):
+        return set(a) == set(b) and all(_same_metrics(a[k], b[k]) for k in a)
+    try:
+        x, y = np.asarray(a, dtype=np.float64), np.asarray(b, dtype=np.float64)
+    except Exception:
+        return True  # non-numeric payloads (instances) are compared through the pairs elsewhere
+    return x.shape == y.shape and bool(np.allclose(x, y, rtol=0, atol=1e-12, equal_nan=True))
